@@ -17,9 +17,9 @@ def count_vectors(total, k):
 
 
 class ILP:
-    def __init__(self, n, k, obj, weights=None, copies=1, constraint=None, order='any'):
+    def __init__(self, n, k, obj, weights=None, copies=1, constraint=None, order='any', pres='nv'):
         self.n = n; self.k = k; self.obj = obj; self.weights = weights; self.copies = copies; self.constraint = constraint
-        self.order = order
+        self.order = order; self.pres = pres
 
     def setup(self, c):
         idx = item_vars(c, self.n, 0, self.order)
@@ -60,8 +60,12 @@ class ILP:
         cands = []
         for rows in itertools.product(*[list(count_vectors(copies[i], k)) for i in range(n)]):
             cands.append([zsum(rows[i][b] * xs[i] for i in range(n)) for b in range(k)])
+        aslist = self.pres == 'list'
         try:
-            sums, lists = prtpy.partition(prt.ilp, k, names, valueof=vals.__getitem__, outputtype=out.PartitionAndSumsTuple, **kw)
+            if aslist:
+                sums, lists = prtpy.partition(prt.ilp, k, [vals[a] for a in names], outputtype=out.PartitionAndSumsTuple, **kw)
+            else:
+                sums, lists = prtpy.partition(prt.ilp, k, names, valueof=vals.__getitem__, outputtype=out.PartitionAndSumsTuple, **kw)
         except ValueError as e:
             c.outcome = {'raised': 'ValueError'}
             c.check('refused-although-feasible', z3.And([z3.Not(feasible(ss)) for ss in cands]), 'ValueError raised although a partition satisfying the constraints exists')
@@ -69,14 +73,29 @@ class ILP:
         except Exception as e:
             c.report('exception', '%s: %s' % (type(e).__name__, e)); c.outcome = {'raised': type(e).__name__}; return
         lists = [list(l) for l in lists]
-        c.outcome = {'bins': describe(lists)}
-        for i, nm in enumerate(names):
+        if aslist:
+            # the items are the values: every value must occur as often as the copies of the items carrying it add up to
+            c.outcome = {'bins': [len(l) for l in lists]}
+            if len(lists) != k:
+                c.report('not-a-partition', '%d bins' % len(lists)); return
+            outz = [zi(v) for l in lists for v in l]
+            if not c.check('copies-not-honoured', z3.And([zsum(z3.If(o == xs[i], 1, 0) for o in outz) == zsum(z3.If(xs[j] == xs[i], copies[j], 0) for j in range(n)) for i in range(n)]
+                                                         + [z3.Or([o == x for x in xs]) for o in outz]),
+                           'some value does not occur as often as the requested copies of the items with that value (copies %s)' % copies):
+                return
+            zs = [zsum(zi(v) for v in l) for l in lists]
+            names_ok = False
+        else:
+            names_ok = True
+            c.outcome = {'bins': describe(lists)}
+        for i, nm in enumerate(names if names_ok else []):
             got = sum(l.count(nm) for l in lists)
             if got != copies[i]:
                 c.report('copies-not-honoured', 'item %s appears %d times, %d copies requested: %s' % (nm, got, copies[i], lists)); return
-        if len(lists) != k or any(x not in names for l in lists for x in l):
-            c.report('not-a-partition', 'bins %s' % lists); return
-        zs = [zsum(zx[a] for a in l) for l in lists]
+        if names_ok:
+            if len(lists) != k or any(x not in names for l in lists for x in l):
+                c.report('not-a-partition', 'bins %s' % lists); return
+            zs = [zsum(zx[a] for a in l) for l in lists]
         c.check('sums-wrong', z3.And([zi(sums[i]) == zs[i] for i in range(k)]), 'reported sums differ from the bins')
         if equal_w:
             c.check('sums-not-ascending', z3.And([zs[i] <= zs[i + 1] for i in range(k - 1)]) if k > 1 else z3.BoolVal(True), 'returned sums are not in non-decreasing order')
@@ -115,6 +134,10 @@ def jobs(tier):
             J.append(job(3, 2, o, constraint=con))
     J.append(job(2, 2, 'min', copies=2)); J.append(job(2, 2, 'diff', copies=[2, 1])); J.append(job(3, 2, 'max', copies=[0, 1, 2]))
     J.append(job(2, 2, 'max', copies=2, constraint='largest_le'))
+    J.append(job(3, 2, 'min', copies=[2, 0, 1], pres='list')); J.append(job(3, 2, 'diff', copies=[0, 1, 2], pres='list')); J.append(job(2, 2, 'min', copies=[2, 1], pres='list'))
+    J.append(job(3, 2, 'max', pres='list'))
+    for o in ('klargest:2', 'ksmallest:2'):
+        J.append(job(3, 4, o, order='desc')); J.append(job(2, 4, o)); J.append(job(3, 3, o, order='desc'))
     J.append(job(3, 2, 'min', weights=[3, 3])); J.append(job(3, 2, 'diff', weights=[2, 2], constraint='smallest_ge'))
     J.append(job(3, 2, 'min', weights=[1, 3])); J.append(job(3, 2, 'min', weights=[10, 2]))
     J.append(job(2, 3, 'min')); J.append(job(3, 1, 'max')); J.append(job(2, 4, 'diff', order='desc'))
